@@ -298,6 +298,16 @@ def draw_cfg(rng: random.Random, focus: str = "C01", tier: str = "quick") -> dic
         cfg["n_sequences"] = rng.choice([3, 5])
         cfg["n_per_clip"] = rng.choice([4, 8])
         cfg["large"] = True
+    if rng.random() < (0.05 if tier == "thorough" else 0.02):
+        # bulk: many simple recordings and clips, so that documents reach
+        # hundreds of kilobytes and lists hundreds of entries (thresholds,
+        # chunking, buffering)
+        cfg["n_recordings"] = rng.choice([150, 400, 1000])
+        cfg["n_clips"] = rng.choice([4, 200])
+        cfg["n_sound_events"] = rng.choice([5, 100])
+        cfg["n_per_clip"] = rng.choice([0, 1])
+        cfg["p_opt"] = rng.choice([0.15, 0.5])
+        cfg["bulk"] = True
     cfg["audio_root"] = rng.choice(AUDIO_ROOTS)
     cfg["tz_aware"] = rng.random() < 0.15
     if focus == "C18":
